@@ -264,20 +264,38 @@ func (l *Linter) lintInfixExpression(exp *ast.InfixExpression, ctx *context.Cont
 		}
 		return types.BoolType
 	case ">", ">=", "<", "<=":
-		// Greater/Less than operator only could compare with INTEGER, FLOAT, or RTIME type
+		// Greater/Less than operator only could compare with INTEGER, FLOAT, RTIME, or two TIME values.
+		// A relative time and a number can be compared through variables only, not against a literal
+		// (the same table as interpreter/operator).
 		switch left {
 		case types.IntegerType:
 			// When left type is INTEGER, right type must be INTEGER or RTIME
 			if !expectType(right, types.IntegerType, types.RTimeType) {
 				l.Error(InvalidTypeExpression(exp.GetMeta(), right, types.IntegerType, types.RTimeType).Match(OPERATOR_CONDITIONAL))
+			} else if right == types.RTimeType && isLiteralExpression(exp.Right) {
+				l.Error(InvalidTypeComparison(exp.GetMeta(), left, right).Match(OPERATOR_CONDITIONAL))
 			}
-		case types.FloatType, types.RTimeType:
-			// When left type is FLOAT or RTIME, right type must be INTEGER or FLOAT or RTIME
+		case types.FloatType:
+			// When left type is FLOAT, right type must be INTEGER or FLOAT or RTIME
 			if !expectType(right, types.IntegerType, types.FloatType, types.RTimeType) {
 				l.Error(InvalidTypeExpression(exp.GetMeta(), right, types.IntegerType, types.FloatType, types.RTimeType).Match(OPERATOR_CONDITIONAL))
+			} else if right == types.RTimeType && isLiteralExpression(exp.Right) {
+				l.Error(InvalidTypeComparison(exp.GetMeta(), left, right).Match(OPERATOR_CONDITIONAL))
+			}
+		case types.RTimeType:
+			// When left type is RTIME, right type must be INTEGER or FLOAT or RTIME
+			if !expectType(right, types.IntegerType, types.FloatType, types.RTimeType) {
+				l.Error(InvalidTypeExpression(exp.GetMeta(), right, types.IntegerType, types.FloatType, types.RTimeType).Match(OPERATOR_CONDITIONAL))
+			} else if right != types.RTimeType && isLiteralExpression(exp.Right) {
+				l.Error(InvalidTypeComparison(exp.GetMeta(), left, right).Match(OPERATOR_CONDITIONAL))
+			}
+		case types.TimeType:
+			// TIME can be compared with TIME
+			if !expectType(right, types.TimeType) {
+				l.Error(InvalidTypeExpression(exp.GetMeta(), right, types.TimeType).Match(OPERATOR_CONDITIONAL))
 			}
 		default:
-			l.Error(InvalidTypeExpression(exp.GetMeta(), left, types.IntegerType, types.FloatType, types.RTimeType).Match(OPERATOR_CONDITIONAL))
+			l.Error(InvalidTypeExpression(exp.GetMeta(), left, types.IntegerType, types.FloatType, types.RTimeType, types.TimeType).Match(OPERATOR_CONDITIONAL))
 		}
 		return types.BoolType
 	case "~", "!~":
@@ -286,6 +304,9 @@ func (l *Linter) lintInfixExpression(exp *ast.InfixExpression, ctx *context.Cont
 			l.Error(InvalidTypeExpression(exp.GetMeta(), left, types.StringType, types.IPType, types.AclType).Match(OPERATOR_CONDITIONAL))
 		} else if !expectType(right, types.StringType, types.AclType, types.RegexType) {
 			l.Error(InvalidTypeExpression(exp.GetMeta(), right, types.StringType, types.RegexType).Match(OPERATOR_CONDITIONAL))
+		} else if left == types.IPType && right != types.AclType {
+			// An IP is matched against an ACL, not against a regular expression
+			l.Error(InvalidTypeExpression(exp.GetMeta(), right, types.AclType).Match(OPERATOR_CONDITIONAL))
 		}
 		if expectType(right, types.StringType) && !isLiteralExpression(exp.Right) {
 			l.Error(&LintError{
